@@ -97,6 +97,8 @@ EXEMPT_KIND = {
     ("src/pest/grammar/optimizer.py", "Optimizer.optimize", "self.log.clear"): ("log", "debug log; never read under src/pest outside Optimizer"),
     ("src/pest/grammar/optimizer.py", "Optimizer._apply", "self.log.append"): ("log", "debug log; never read under src/pest outside Optimizer"),
     ("src/pest/grammar/optimizer.py", "Optimizer.optimize", "rules[name].expression"): ("own-rules", "the receiver is an entry of the parser's own rule table that is not a shared built-in (guarded by isinstance(rule, BuiltInRule): continue)"),
+    ("src/pest/grammar/optimizer.py", "Optimizer.optimize", "rewritten.expression"): ("local-copy", "the receiver is a copy of the rule made in this call; the caller's Rule objects are left alone"),
+    ("src/pest/grammar/optimizer.py", "Optimizer.optimize", "rules[name]"): ("own-table", "store into the parser's own freshly built rule dict"),
     ("src/pest/grammar/optimizer.py", "Optimizer._optimize_skip_rule", "rules['SKIP']"): ("own-table", "store into the parser's own freshly built rule dict"),
 }
 
@@ -189,9 +191,50 @@ def check_premise(repo: Repo, rel: str, qual: str, target: str, kind: str, node:
                 if t == "isinstance(rule, BuiltInRule)" and any(x is p for x in par.orelse):
                     ok = True
             p = par
-        return ok, "built-in entries are skipped before the store" if ok else "shared built-in rule objects are not excluded before rules[name].expression is assigned"
+        if not ok:
+            return False, "shared built-in rule objects are not excluded before rules[name].expression is assigned"
+        # the entries of the table are the Rule objects the caller handed to Parser.__init__ (a public constructor):
+        # an in-place store is visible to every parser built from the same mapping
+        init = repo.method_or_none("src/pest/parser.py", "Parser", "__init__")
+        copied = init is not None and any(isinstance(c, ast.Call) and ast.unparse(c.func) in ("copy.copy", "copy.deepcopy", "deepcopy") for c in ast.walk(init))
+        if not copied:
+            return False, "the entries of the rule table are the caller's Rule objects (Parser.__init__ stores them as given): two parsers built from one mapping share them"
+        return True, "built-in entries are skipped and Parser.__init__ copies the rules it is given"
+    if kind == "local-copy":
+        # the receiver is a local bound exactly once, to copy.copy(...) / copy.deepcopy(...), in this function
+        recv = target.split(".")[0]
+        binds = [n for n in ast.walk(fn) if isinstance(n, (ast.Assign, ast.AnnAssign)) and any(isinstance(t, ast.Name) and t.id == recv for t in (n.targets if isinstance(n, ast.Assign) else [n.target]))]
+        params = {a.arg for a in fn.args.args + fn.args.kwonlyargs}
+        if recv in params or len(binds) != 1 or binds[0].value is None:
+            return False, f"{recv} is not a local bound exactly once"
+        v = binds[0].value
+        ok = isinstance(v, ast.Call) and ast.unparse(v.func) in ("copy.copy", "copy.deepcopy", "copy", "deepcopy")
+        return ok, (f"{recv} = {ast.unparse(v)}: a copy made in this call" if ok else f"{recv} is bound to {ast.unparse(v)}, not to a copy")
     if kind == "own-table":
-        return True, "subscript store into the dict argument built by pest.Parser.__init__ as {**BUILTIN, **rules}"
+        # every caller of Optimizer.optimize passes a dict that the caller itself has just built from a dict display
+        bad = []
+        n_calls = 0
+        for rel2 in repo.py_files:
+            m2 = repo.mod(rel2)
+            for n in ast.walk(m2.tree):
+                if isinstance(n, ast.Call) and isinstance(n.func, ast.Attribute) and n.func.attr == "optimize" and n.args:
+                    n_calls += 1
+                    arg = ast.unparse(n.args[0])
+                    f2 = n
+                    while f2 is not None and not isinstance(f2, ast.FunctionDef):
+                        f2 = m2.parents.get(f2)
+                    fresh = False
+                    if f2 is not None:
+                        for a in ast.walk(f2):
+                            if isinstance(a, (ast.Assign, ast.AnnAssign)) and a.value is not None and isinstance(a.value, ast.Dict):
+                                tg = a.targets[0] if isinstance(a, ast.Assign) else a.target
+                                if ast.unparse(tg) == arg:
+                                    fresh = True
+                    if not fresh:
+                        bad.append(f"{rel2}::{qualname_of(m2, n)}: optimize({arg})")
+        if not n_calls:
+            return False, "no call site of optimize() found"
+        return (not bad), ("every optimize() call passes a dict its caller has just built ({**BUILTIN, **rules})" if not bad else f"optimize() is given a mapping that may be shared: {bad}")
     return False, f"unknown exemption kind {kind}"
 
 
@@ -278,8 +321,10 @@ def analyse(check: Check, repo: Repo) -> None:
         key = (rel, qual, target.replace('"', "'"))
         norm_key = None
         for (r0, q0, t0), v in EXEMPT_KIND.items():
+            # exact target first, else the longest listed prefix
             if r0 == rel and q0 == qual and (t0 == key[2] or key[2].startswith(t0)):
-                norm_key = (r0, q0, t0)
+                if norm_key is None or (t0 == key[2]) or (norm_key[2] != key[2] and len(t0) > len(norm_key[2])):
+                    norm_key = (r0, q0, t0)
         construct = f"{rel}::{qual}"
         if construct not in reach:
             check.oblige("SHARED-WRITE", construct, f"{kind} {target}: function is not reachable from Parser construction / parse / generate / optimize", True, nontrivial=False)
